@@ -25,6 +25,9 @@
 #include <sys/mman.h>
 #include "runtime/dyn_array.h"
 #include "runtime/gc.h"
+#include "runtime/list_int.h"
+#include "runtime/list_string.h"
+#include "runtime/nl_string.h"
 
 #ifndef RT_PLAIN
 #include <sanitizer/common_interface_defs.h>
@@ -89,8 +92,20 @@ static const char *STRS[] = { "", "a", "hello", "nanolang", "x y z", "0123456789
 static int live_objects;   /* model: gc objects with refcount > 0 */
 static void *ballast[4]; static int nballast;
 
-enum { OP_NEW, OP_NEWCAP, OP_PUSH, OP_POP, OP_GET, OP_SET, OP_INSERT, OP_REMOVE, OP_CLEAR, OP_RESERVE, OP_CLONE, OP_RETAIN, OP_RELEASE, OP_BALLAST, OP_COLLECT, OP_GCSTR, NOPS };
-static const char *opname[] = { "new", "new_with_capacity", "push", "pop", "get", "set", "insert", "remove_at", "clear", "reserve", "clone", "retain", "release", "ballast", "collect", "gc_string" };
+enum { OP_NEW, OP_NEWCAP, OP_PUSH, OP_POP, OP_GET, OP_SET, OP_INSERT, OP_REMOVE, OP_CLEAR, OP_RESERVE, OP_CLONE, OP_RETAIN, OP_RELEASE, OP_BALLAST, OP_COLLECT, OP_GCSTR,
+       OP_LI_NEW, OP_LI_PUSH, OP_LI_POP, OP_LI_INSERT, OP_LI_REMOVE, OP_LI_SET, OP_LI_CLEAR, OP_LI_FREE,
+       OP_LS_NEW, OP_LS_PUSH, OP_LS_POP, OP_LS_INSERT, OP_LS_REMOVE, OP_LS_SET, OP_LS_CLEAR, OP_LS_FREE,
+       OP_NS_NEW, OP_NS_CONCAT, OP_NS_SUBSTR, OP_NS_CLONE, OP_NS_RESERVE, OP_NS_FREE, NOPS };
+static const char *opname[] = { "new", "new_with_capacity", "push", "pop", "get", "set", "insert", "remove_at", "clear", "reserve", "clone", "retain", "release", "ballast", "collect", "gc_string",
+       "li_new", "li_push", "li_pop", "li_insert", "li_remove", "li_set", "li_clear", "li_free",
+       "ls_new", "ls_push", "ls_pop", "ls_insert", "ls_remove", "ls_set", "ls_clear", "ls_free",
+       "ns_new", "ns_concat", "ns_substring", "ns_clone", "ns_reserve", "ns_free" };
+/* generated list types and byte strings: two slots each, modelled by plain C arrays */
+#define LMAX 300
+static struct { List_int *l; int n; int64_t v[LMAX]; } LI[2];
+static struct { List_string *l; int n; const char *v[LMAX]; } LS[2];
+static struct { nl_string_t *s; size_t n; uint8_t v[4096]; } NS[3];
+static void lists_check(const char *after, int opi);
 typedef struct Op { int op, arr, kind; long x, y; } Op;
 typedef struct Plan { uint64_t seed; int junk, movere, stale, thresh; int nops; Op ops[256]; } Plan;
 
@@ -149,10 +164,24 @@ static void do_push(MArr *m, MVal *v) {
     case K_STRUCT: m->d = dyn_array_push_struct(m->d, v->st, (size_t)m->ssize); break;
     }
 }
+static void lists_check(const char *after, int opi) {
+    for (int k = 0; k < 2; k++) {
+        if (LI[k].l) { n_checks++;
+            if (list_int_length(LI[k].l) != LI[k].n) { viol("list-length-differs", "after op %d (%s): List_int %d length %d, model %d", opi, after, k, list_int_length(LI[k].l), LI[k].n); return; }
+            if (LI[k].l->length > LI[k].l->capacity) { viol("list-length-exceeds-capacity", "after op %d (%s): List_int %d", opi, after, k); return; }
+            for (int j = 0; j < LI[k].n; j++) if (list_int_get(LI[k].l, j) != LI[k].v[j]) { viol("list-contents-differ", "after op %d (%s): List_int %d element %d differs from the model list", opi, after, k, j); return; } }
+        if (LS[k].l) { n_checks++;
+            if (list_string_length(LS[k].l) != LS[k].n) { viol("list-length-differs", "after op %d (%s): List_string %d length %d, model %d", opi, after, k, list_string_length(LS[k].l), LS[k].n); return; }
+            for (int j = 0; j < LS[k].n; j++) { char *g = list_string_get(LS[k].l, j); if (!g || strcmp(g, LS[k].v[j])) { viol("list-contents-differ", "after op %d (%s): List_string %d element %d differs from the model list", opi, after, k, j); return; } } }
+    }
+    for (int k = 0; k < 3; k++) if (NS[k].s) { n_checks++;
+        if (nl_string_length(NS[k].s) != NS[k].n) { viol("string-length-differs", "after op %d (%s): nl_string %d length %zu, model %zu", opi, after, k, nl_string_length(NS[k].s), NS[k].n); return; }
+        for (size_t j = 0; j < NS[k].n; j++) if ((uint8_t)nl_string_byte_at(NS[k].s, j) != NS[k].v[j]) { viol("string-contents-differ", "after op %d (%s): nl_string %d byte %zu differs from the model", opi, after, k, j); return; } }
+}
 static int pick_live(long x) { int c = 0; for (int i = 0; i < MAXA; i++) c += A[i].live; if (!c) return -1; int k = (int)((unsigned long)x % (unsigned)c); for (int i = 0; i < MAXA; i++) if (A[i].live && k-- == 0) return i; return -1; }
 
 static void run_plan(Plan *P) {
-    memset(A, 0, sizeof A); live_objects = 0; nballast = 0; vsig[0] = vmsg[0] = 0; n_checks = 0;
+    memset(A, 0, sizeof A); memset(LI, 0, sizeof LI); memset(LS, 0, sizeof LS); memset(NS, 0, sizeof NS); live_objects = 0; nballast = 0; vsig[0] = vmsg[0] = 0; n_checks = 0;
     junk_byte = P->junk; move_realloc = P->movere; stale_recycle = P->stale; ncache = 0;
     hdr_obj_size = sizeof(GCHeader) + sizeof(DynArray);
     gc_init();
@@ -230,7 +259,37 @@ static void run_plan(Plan *P) {
             break;
         case OP_COLLECT: gc_collect_cycles(); break;
         case OP_GCSTR: { char *s = gc_alloc_string((size_t)(o->x % 100)); if (s) { s[0] = 0; gc_release(s); } break; }
+        case OP_LI_NEW: { int k = o->arr & 1; if (LI[k].l) break; LI[k].l = o->x & 1 ? list_int_new() : list_int_with_capacity((int)(o->y % 20)); LI[k].n = 0; break; }
+        case OP_LI_PUSH: { int k = o->arr & 1; if (!LI[k].l) break; for (int rpt = 0; rpt < 1 + (int)(o->y % 12) && LI[k].n < LMAX; rpt++) { int64_t v = (int64_t)o->x * 977 - rpt; list_int_push(LI[k].l, v); LI[k].v[LI[k].n++] = v; } break; }
+        case OP_LI_POP: { int k = o->arr & 1; if (!LI[k].l || !LI[k].n) break; int64_t g = list_int_pop(LI[k].l); if (g != LI[k].v[LI[k].n - 1]) viol("list-pop-wrong-value", "op %d: list_int_pop", i); LI[k].n--; break; }
+        case OP_LI_INSERT: { int k = o->arr & 1; if (!LI[k].l || LI[k].n >= LMAX) break; int idx = (int)((unsigned long)o->x % (unsigned)(LI[k].n + 1)); int64_t v = o->y * 31 + 5; list_int_insert(LI[k].l, idx, v);
+            memmove(&LI[k].v[idx + 1], &LI[k].v[idx], sizeof(int64_t) * (size_t)(LI[k].n - idx)); LI[k].v[idx] = v; LI[k].n++; break; }
+        case OP_LI_REMOVE: { int k = o->arr & 1; if (!LI[k].l || !LI[k].n) break; int idx = (int)((unsigned long)o->x % (unsigned)LI[k].n); int64_t g = list_int_remove(LI[k].l, idx);
+            if (g != LI[k].v[idx]) viol("list-remove-wrong-value", "op %d: list_int_remove(%d)", i, idx); memmove(&LI[k].v[idx], &LI[k].v[idx + 1], sizeof(int64_t) * (size_t)(LI[k].n - idx - 1)); LI[k].n--; break; }
+        case OP_LI_SET: { int k = o->arr & 1; if (!LI[k].l || !LI[k].n) break; int idx = (int)((unsigned long)o->x % (unsigned)LI[k].n); list_int_set(LI[k].l, idx, o->y); LI[k].v[idx] = o->y; break; }
+        case OP_LI_CLEAR: { int k = o->arr & 1; if (!LI[k].l) break; list_int_clear(LI[k].l); LI[k].n = 0; break; }
+        case OP_LI_FREE: { int k = o->arr & 1; if (!LI[k].l) break; list_int_free(LI[k].l); LI[k].l = NULL; LI[k].n = 0; break; }
+        case OP_LS_NEW: { int k = o->arr & 1; if (LS[k].l) break; LS[k].l = o->x & 1 ? list_string_new() : list_string_with_capacity((int)(o->y % 20)); LS[k].n = 0; break; }
+        case OP_LS_PUSH: { int k = o->arr & 1; if (!LS[k].l) break; for (int rpt = 0; rpt < 1 + (int)(o->y % 12) && LS[k].n < LMAX; rpt++) { const char *v = STRS[(unsigned long)(o->x + rpt) % 6]; list_string_push(LS[k].l, v); LS[k].v[LS[k].n++] = v; } break; }
+        case OP_LS_POP: { int k = o->arr & 1; if (!LS[k].l || !LS[k].n) break; char *g = list_string_pop(LS[k].l); if (!g || strcmp(g, LS[k].v[LS[k].n - 1])) viol("list-pop-wrong-value", "op %d: list_string_pop", i); free(g); LS[k].n--; break; }
+        case OP_LS_INSERT: { int k = o->arr & 1; if (!LS[k].l || LS[k].n >= LMAX) break; int idx = (int)((unsigned long)o->x % (unsigned)(LS[k].n + 1)); const char *v = STRS[(unsigned long)o->y % 6]; list_string_insert(LS[k].l, idx, v);
+            memmove(&LS[k].v[idx + 1], &LS[k].v[idx], sizeof(char *) * (size_t)(LS[k].n - idx)); LS[k].v[idx] = v; LS[k].n++; break; }
+        case OP_LS_REMOVE: { int k = o->arr & 1; if (!LS[k].l || !LS[k].n) break; int idx = (int)((unsigned long)o->x % (unsigned)LS[k].n); char *g = list_string_remove(LS[k].l, idx);
+            if (!g || strcmp(g, LS[k].v[idx])) viol("list-remove-wrong-value", "op %d: list_string_remove(%d)", i, idx); free(g); memmove(&LS[k].v[idx], &LS[k].v[idx + 1], sizeof(char *) * (size_t)(LS[k].n - idx - 1)); LS[k].n--; break; }
+        case OP_LS_SET: { int k = o->arr & 1; if (!LS[k].l || !LS[k].n) break; int idx = (int)((unsigned long)o->x % (unsigned)LS[k].n); const char *v = STRS[(unsigned long)o->y % 6]; list_string_set(LS[k].l, idx, v); LS[k].v[idx] = v; break; }
+        case OP_LS_CLEAR: { int k = o->arr & 1; if (!LS[k].l) break; list_string_clear(LS[k].l); LS[k].n = 0; break; }
+        case OP_LS_FREE: { int k = o->arr & 1; if (!LS[k].l) break; list_string_free(LS[k].l); LS[k].l = NULL; LS[k].n = 0; break; }
+        case OP_NS_NEW: { int k = o->arr % 3; if (NS[k].s) break; size_t n = (size_t)(o->x % 300); for (size_t j = 0; j < n; j++) NS[k].v[j] = (uint8_t)((o->y + (long)j * 7) % 256); NS[k].n = n;
+            NS[k].s = nl_string_new_binary(NS[k].v, n); break; }
+        case OP_NS_CONCAT: { int a1 = o->arr % 3, b1 = (int)(o->x % 3), d1 = (int)(o->y % 3); if (!NS[a1].s || !NS[b1].s || NS[d1].s || NS[a1].n + NS[b1].n > 4000) break;
+            NS[d1].s = nl_string_concat(NS[a1].s, NS[b1].s); memcpy(NS[d1].v, NS[a1].v, NS[a1].n); memcpy(NS[d1].v + NS[a1].n, NS[b1].v, NS[b1].n); NS[d1].n = NS[a1].n + NS[b1].n; break; }
+        case OP_NS_SUBSTR: { int a1 = o->arr % 3, d1 = (int)(o->y % 3); if (!NS[a1].s || NS[d1].s || !NS[a1].n) break; size_t st = (size_t)o->x % NS[a1].n, ln = (size_t)(o->y / 3) % (NS[a1].n - st + 1);
+            NS[d1].s = nl_string_substring(NS[a1].s, st, ln); memcpy(NS[d1].v, NS[a1].v + st, ln); NS[d1].n = ln; break; }
+        case OP_NS_CLONE: { int a1 = o->arr % 3, d1 = (int)(o->y % 3); if (!NS[a1].s || NS[d1].s) break; NS[d1].s = nl_string_clone(NS[a1].s); memcpy(NS[d1].v, NS[a1].v, NS[a1].n); NS[d1].n = NS[a1].n; break; }
+        case OP_NS_RESERVE: { int a1 = o->arr % 3; if (!NS[a1].s) break; if (o->x & 1) nl_string_reserve(NS[a1].s, (size_t)(o->y % 5000)); else nl_string_shrink_to_fit(NS[a1].s); break; }
+        case OP_NS_FREE: { int a1 = o->arr % 3; if (!NS[a1].s) break; nl_string_free(NS[a1].s); NS[a1].s = NULL; NS[a1].n = 0; break; }
         }
+        if (!vsig[0] && o->op >= OP_LI_NEW) lists_check(opname[o->op], i);
         if (!vsig[0]) check_all(opname[o->op], i);
     }
     seam_on = 0;
@@ -247,7 +306,7 @@ static void plan_gen(Plan *P, uint64_t seed, bool quick) {
     int kinds_mask = 1 + (int)rn((1u << NKINDS) - 1);
     for (int i = 0; i < n; i++) {
         Op *o = &P->ops[P->nops]; int op;
-        do { uint32_t r = rn(100); op = r < 14 ? OP_NEW : r < 18 ? OP_NEWCAP : r < 42 ? OP_PUSH : r < 50 ? OP_POP : r < 56 ? OP_GET : r < 63 ? OP_SET : r < 69 ? OP_INSERT : r < 76 ? OP_REMOVE : r < 78 ? OP_CLEAR : r < 82 ? OP_RESERVE : r < 87 ? OP_CLONE : r < 89 ? OP_RETAIN : r < 93 ? OP_RELEASE : r < 96 ? OP_BALLAST : r < 98 ? OP_COLLECT : OP_GCSTR; } while (!en[op]);
+        do { uint32_t r = rn(130); if (r >= 100) { op = OP_LI_NEW + (int)rn(NOPS - OP_LI_NEW); if (rn(3) == 0) op = rn(3) == 0 ? OP_LI_NEW : rn(2) ? OP_LS_NEW : OP_NS_NEW; continue; } op = r < 14 ? OP_NEW : r < 18 ? OP_NEWCAP : r < 42 ? OP_PUSH : r < 50 ? OP_POP : r < 56 ? OP_GET : r < 63 ? OP_SET : r < 69 ? OP_INSERT : r < 76 ? OP_REMOVE : r < 78 ? OP_CLEAR : r < 82 ? OP_RESERVE : r < 87 ? OP_CLONE : r < 89 ? OP_RETAIN : r < 93 ? OP_RELEASE : r < 96 ? OP_BALLAST : r < 98 ? OP_COLLECT : OP_GCSTR; } while (!en[op]);
         o->op = op; o->arr = (int)rn(64); do { o->kind = (int)rn(NKINDS); } while (!((kinds_mask >> o->kind) & 1));
         o->x = (long)rn(100000); o->y = (long)rn(100000);
         P->nops++;
